@@ -1,6 +1,6 @@
 """C19: ignore-folder table, python suffixes, open/parse limits, .gitignore line filter, fingerprints."""
 import ast
-from translator.extract import Src, TieBroken, u, lean_list, lean_bool
+from translator.extract import Src, TieBroken, u, lean_list, lean_bool, lean_str
 
 
 def _calls(node, name):
@@ -154,6 +154,96 @@ def generate(repo, g):
         raise TieBroken('helpers.py: split_search_string alias table changed', repr(alias))
     g.define('searchTypeAlias', 'List (String × String)', '[("def", "function")]',
              'jedi/api/helpers.py:split_search_string')
+
+    # Project._search_func, step 1 (modules / packages named like the first search word) and the
+    # collection of the files step 2 scans for identifiers:
+    #   ios = recurse_find_python_folders_and_files(FolderIO(str(self._path)))
+    #   file_ios = []
+    #   for folder_io, file_io in ios:
+    #       if file_io is None: <folder: file_name == name or file_name == stub_folder_name ... else: continue>
+    #       else: <FILE BRANCH: statements over {file_ios.append(file_io), m = load_module_from_path(..),
+    #              continue, if Path(file_io.path).name in (name + sfx, ..): .. else: ..}>
+    #       debug.dbg(..); yield from search_in_module(.., names=[m.name], ..)
+    #   for module_context in search_in_file_ios(inference_state, file_ios, name, complete=complete): ...
+    # The file branch is transcribed statement by statement (not pattern-matched against the one
+    # expected text): WHERE `file_ios.append` stands decides which files reach step 2, and the
+    # theorem `search_complete` is stated over this transcription.
+    fn = proj.find('Project._search_func')
+    assigns = {u(n.targets[0]): u(n.value) for n in fn.body if isinstance(n, ast.Assign) and len(n.targets) == 1}
+    if assigns.get('ios') != 'recurse_find_python_folders_and_files(FolderIO(str(self._path)))':
+        raise TieBroken('project.py: _search_func no longer walks FolderIO(str(self._path))', repr(assigns.get('ios')))
+    if assigns.get('file_ios') != '[]':
+        raise TieBroken('project.py: _search_func: file_ios is not initialised with []', repr(assigns.get('file_ios')))
+    if assigns.get('name') != 'wanted_names[0]':
+        raise TieBroken('project.py: _search_func: name is not wanted_names[0]', repr(assigns.get('name')))
+    stub = assigns.get('stub_folder_name', '')
+    if not (stub.startswith('name + ') and isinstance(ast.literal_eval(stub[len('name + '):]), str)):
+        raise TieBroken('project.py: _search_func: stub_folder_name is not name + <literal>', stub)
+    loops = [n for n in fn.body if isinstance(n, ast.For)]
+    if len(loops) != 2 or u(loops[0].target) != '(folder_io, file_io)' or u(loops[0].iter) != 'ios':
+        raise TieBroken('project.py: _search_func: the loop `for folder_io, file_io in ios` / the identifier loop not found')
+    step1, step2 = loops
+    if len(step1.body) != 3 or not isinstance(step1.body[0], ast.If) or u(step1.body[0].test) != 'file_io is None' \
+            or not u(step1.body[1]).startswith('debug.dbg(') \
+            or not (isinstance(step1.body[2], ast.Expr) and isinstance(step1.body[2].value, ast.YieldFrom)
+                    and u(step1.body[2].value.value).startswith('search_in_module(')
+                    and 'names=[m.name]' in u(step1.body[2].value.value)):
+        raise TieBroken('project.py: _search_func: step-1 loop body is not [if file_io is None, debug.dbg, '
+                        'yield from search_in_module(names=[m.name])]', u(step1)[:400])
+    folder_branch, file_branch = step1.body[0].body, step1.body[0].orelse
+    # folder branch: `file_name = folder_io.get_base_name()`, `if file_name == name or file_name == stub_folder_name: .. else: continue`
+    if len(folder_branch) != 2 or u(folder_branch[0]) != 'file_name = folder_io.get_base_name()' \
+            or not isinstance(folder_branch[1], ast.If) \
+            or u(folder_branch[1].test) != 'file_name == name or file_name == stub_folder_name' \
+            or [u(x) for x in folder_branch[1].orelse] != ['continue']:
+        raise TieBroken('project.py: _search_func: folder branch of step 1 changed', u(step1.body[0])[:400])
+
+    def simple(st):
+        t = u(st)
+        if t == 'file_ios.append(file_io)':
+            return 'append'
+        if t == 'm = load_module_from_path(inference_state, file_io).as_context()':
+            return 'load'
+        if isinstance(st, ast.Continue):
+            return 'continue'
+        raise TieBroken('project.py: _search_func: unknown statement in the file branch of step 1', t)
+
+    suffixes = []
+
+    def stmt(st):
+        if isinstance(st, ast.If):
+            t = st.test
+            ok = (isinstance(t, ast.Compare) and len(t.ops) == 1 and isinstance(t.ops[0], ast.In)
+                  and u(t.left) == 'Path(file_io.path).name' and isinstance(t.comparators[0], ast.Tuple))
+            if ok:
+                for e in t.comparators[0].elts:
+                    if not (isinstance(e, ast.BinOp) and isinstance(e.op, ast.Add) and u(e.left) == 'name'
+                            and isinstance(e.right, ast.Constant) and isinstance(e.right.value, str)):
+                        ok = False
+                        break
+                    suffixes.append(e.right.value)
+            if not ok:
+                raise TieBroken('project.py: _search_func: the file-name test of step 1 is not '
+                                '`Path(file_io.path).name in (name + <sfx>, ...)`', u(t))
+            return '("if_named", %s, %s)' % (lean_list([simple(x) for x in st.body]),
+                                             lean_list([simple(x) for x in st.orelse]))
+        return '(%s, [], [])' % lean_str(simple(st))
+    branch = [stmt(st) for st in file_branch]
+    if sum(1 for b in branch if b.startswith('("if_named"')) != 1:
+        raise TieBroken('project.py: _search_func: file branch of step 1 has not exactly one file-name test', u(step1.body[0])[:400])
+    n_refs = sum(1 for n in ast.walk(fn) if isinstance(n, ast.Name) and n.id == 'file_ios')
+    call = step2.iter
+    if not (isinstance(call, ast.Call) and u(call.func) == 'search_in_file_ios' and len(call.args) == 3
+            and u(call.args[1]) == 'file_ios' and u(call.args[2]) == 'name') or n_refs != 3:
+        raise TieBroken('project.py: _search_func: step 2 does not iterate search_in_file_ios(.., file_ios, name, ..) '
+                        'or file_ios is touched elsewhere', u(call))
+    g.define('searchFileBranch', 'List (String × List String × List String)', '[' + ', '.join(branch) + ']',
+             'jedi/api/project.py:Project._search_func step 1, `else:` branch of `if file_io is None` '
+             '(statement, then-branch, else-branch)')
+    g.define('moduleFileSuffixes', 'List String', lean_list(suffixes),
+             'jedi/api/project.py:Project._search_func `Path(file_io.path).name in (name + ..)`')
+    g.define('stubFolderSuffix', 'String', lean_str(ast.literal_eval(stub[len('name + '):])),
+             'jedi/api/project.py:Project._search_func `stub_folder_name = name + ..`')
 
     for s, d in [(refs, 'recurse_find_python_folders_and_files'), (refs, 'gitignored_paths'),
                  (refs, 'expand_relative_ignore_paths'), (refs, 'search_in_file_ios'), (refs, '_check_fs'),
